@@ -1057,7 +1057,7 @@ class SupportComplexDataType(Element):
     value = property(_get_value, _set_value)
 
     def _get_children(self, trailing=False):
-        if is_base_datatype(self.datatype, self.version) or self.datatype is None:
+        if is_base_datatype(self.datatype, self.version) or self.datatype in (None, 'varies'):
             return [[c for c in self.children]]
         else:
             return Element._get_children(self, trailing=False)
@@ -1581,7 +1581,10 @@ class Field(SupportComplexDataType):
 
     def _get_children(self, trailing=False):
         if self.datatype == 'varies':
-            children = [self.children.indexes['VARIES_{0}'.format(i + 1)] for i in xrange(len(self.children))]
+            # the position of a component is given by its number: the ones in between may be missing
+            indexes = self.children.indexes
+            numbers = [int(n[7:]) for n in indexes if indexes[n] and _valid_child_name(n, 'VARIES')]
+            children = [indexes.get('VARIES_{0}'.format(i + 1)) or None for i in xrange(max(numbers or [0]))]
             children = _remove_trailing(children)
             children.extend([[c] for c in self.children if c.is_unknown()])
             return children
